@@ -235,3 +235,38 @@ def value_overlap_rule(rep, u, fname="ini_val_set", param="val"):
                                              "memcpy(%s, %s, ..): ini_val_get() returns a pointer into the record; setting a key to its own trimmed value replaces in place "
                                              "and copies between overlapping ranges (ASan: memcpy-param-overlap)" % (key(d_)[:30], param), c.get("ln"))
     return n
+
+
+def keep_found_rule(rep, u, fname="ini_val_find__int"):
+    """R-KEEP: the finder walks every block of the section and returns the last hit.  The variable it returns is overwritten
+    inside the walk only under a test of the new candidate against a constant (the 'invalid' marker): a block of the section
+    that lacks the key must not erase an earlier hit."""
+    fn = _need(u, fname)
+    rep.functions.add(fname)
+    rets = {core.strip_casts(r["e"]).get("id") for pos, r in fn.returns() if r.get("e") is not None and core.strip_casts(r["e"]).get("k") == "ref"}
+    n = 0
+    for pos, root, x, ps in fn.nodes():
+        if not (x.get("k") == "bin" and x["op"] == "=" and core.strip_casts(x["x"]).get("k") == "ref" and core.strip_casts(x["x"]).get("id") in rets):
+            continue
+        b = pos[0]
+        if b not in fn.reach_from([s for s in fn.blocks[b].succ if s is not None]):
+            continue            # not inside the walk
+        src = core.strip_casts(x["y"])
+        n += 1
+        ok = False
+        if src.get("k") == "ref":
+            for q in fn.reachable_blocks():
+                cq = fn.blocks[q].cond
+                if cq is None or q == b or not fn.dominates(q, b):
+                    continue
+                for y, _ in _walk(cq):
+                    if y.get("k") == "bin" and y["op"] in ("!=", "==") and any(core.strip_casts(y[s_]).get("k") == "ref" and core.strip_casts(y[s_]).get("id") == src.get("id") for s_ in ("x", "y")) \
+                            and any(const_val(y[s_]) is not None for s_ in ("x", "y")):
+                        ok = True
+        desc = "%s: the returned hit is overwritten inside the walk only by a candidate that was tested against the 'invalid' marker (line %s)" % (fname, x.get("ln"))
+        if ok:
+            rep.proved("R-KEEP", fn, "keep-found#%d" % n, desc, "", x.get("ln"))
+        else:
+            rep.violated("R-KEEP", fn, "keep-found#%d" % n, desc, "the store is unconditional: a later block of the same section without the key erases the earlier hit - "
+                         "the key reads as ENOENT and a set appends a duplicate", x.get("ln"))
+    return n
